@@ -6,7 +6,10 @@ A *call spec* is a dict with key 'api' (see exec_call).
 Everything is plain JSON (json.dumps(..., allow_nan=True) keeps NaN and None apart).
 """
 import copy
+import json
 import math
+import zlib
+from collections import Counter
 
 import numpy as np
 import pandas as pd
@@ -163,13 +166,23 @@ _TOK_CACHE = {}
 
 # ----------------------------------------------------------------------------- calls
 
+def np_number(value, how):
+    """The same number as a numpy scalar: how = True (int64 / float64) or a numpy type name."""
+    if not how:
+        return value
+    if how is True:
+        how = 'int64' if isinstance(value, int) else 'float64'
+    return getattr(np, how)(value)
+
+
 def make_filter(ssj, fspec, tok):
     kind = fspec['kind']
     cls = getattr(ssj, kind)
+    how = fspec.get('threshold_np')
     if kind == 'OverlapFilter':
-        return cls(tok, fspec.get('overlap_size', 1), fspec.get('comp_op', '>='),
+        return cls(tok, np_number(fspec.get('overlap_size', 1), how), fspec.get('comp_op', '>='),
                    fspec.get('allow_missing', False))
-    return cls(tok, fspec.get('measure_spelling') or fspec['measure'], fspec['threshold'],
+    return cls(tok, fspec.get('measure_spelling') or fspec['measure'], np_number(fspec['threshold'], how),
                fspec.get('allow_empty', True), fspec.get('allow_missing', False))
 
 
@@ -192,6 +205,12 @@ def sim_function(name):
         return UserSim(3).score
     if name == 'user_len_diff':
         return len_diff
+    if name == 'user_neg':
+        return neg_len_diff
+    if name == 'user_signed':
+        return signed_overlap
+    if name == 'user_nw':
+        return sm.NeedlemanWunsch().get_raw_score
     raise ValueError(name)
 
 
@@ -201,6 +220,16 @@ def overlap_fn(x, y):
 
 def len_diff(x, y):
     return abs(len(x) - len(y))
+
+
+def neg_len_diff(x, y):
+    # a negated distance: never positive
+    return -abs(len(x) - len(y))
+
+
+def signed_overlap(x, y):
+    # takes both signs
+    return len(set(x) & set(y)) - 2
 
 
 class UserSim(object):
@@ -239,6 +268,83 @@ def join_kwargs(call):
     return kw
 
 
+PRESENTATION = Counter()      # what exec_call did beyond the plain call (reported by the shard)
+WARM_RATE = 8                 # percent of calls whose tables "were used before"
+WARM_APIS = None
+
+
+class HarnessError(Exception):
+    pass
+
+
+def _warm_mode(call):
+    """'inplace' / 'derived' / None.  Explicit call['warm'] wins; otherwise a deterministic 8 % of the
+    calls (a function of the call itself, so a replay makes the same choice)."""
+    if 'warm' in call:
+        return call['warm']
+    if call.get('api') not in JOINS and call.get('api') not in ('filter_tables', 'filter_candset',
+                                                                 'apply_matcher'):
+        return None
+    try:
+        h = zlib.crc32(json.dumps(jsonable([call.get('api'), call.get('threshold'), call.get('filter'),
+                                             call.get('ltable'), call.get('rtable')]),
+                                  sort_keys=True, default=repr).encode())
+    except Exception:
+        return None
+    if h % 100 >= WARM_RATE:
+        return None
+    return 'inplace' if (h // 100) % 2 else 'derived'
+
+
+def _used_before(ssj, call, objs, L, R, mode):
+    """The 'used before' presentation: the judged call receives frames that already went through
+    the same API call while one of their join columns held the same values in another row order
+    (so other rows were missing / empty / long), and were then given their real values
+      inplace : by assigning the column of the very same DataFrame object,
+      derived : on a .copy() of it (pandas deep-copies .attrs to derived frames).
+    The frames handed over are value-, dtype-, index- and column-identical to fresh ones; a library
+    that keeps anything about a table beyond the call (on the frame, in .attrs, in a module-level
+    cache keyed by the object or its shape) now answers for the wrong rows."""
+    la, ra = call.get('l_attr'), call.get('r_attr')
+    if L is None or R is None or not L.columns.is_unique or not R.columns.is_unique \
+            or la not in L.columns or ra not in R.columns:
+        return L, R
+    before = (snapshot_df(L), snapshot_df(R))
+    P = []
+    for df, attr, key in ((L, la, call.get('l_key')), (R, ra, call.get('r_key'))):
+        p = df.copy()
+        n = len(p)
+        if n > 1 and attr != key:
+            order = np.roll(np.arange(n), 1)
+            p[attr] = pd.Series(df[attr].iloc[order].array, index=p.index, dtype=df[attr].dtype)
+        P.append(p)
+    wobjs = dict(objs)
+    wobjs.update({'ltable': P[0], 'rtable': P[1]})
+    wobjs.pop('filter', None)
+    wcall = dict(call, warm=None)
+    import warnings as _w
+    try:
+        with _w.catch_warnings():
+            _w.simplefilter('ignore')
+            _exec_call2(ssj, wcall, wobjs)
+    except Exception:
+        PRESENTATION['warm_call_raised'] += 1
+    out = []
+    for df, p, attr in ((L, P[0], la), (R, P[1], ra)):
+        if mode == 'derived':
+            p = p.copy()
+        p[attr] = pd.Series(df[attr].array, index=p.index, dtype=df[attr].dtype)
+        out.append(p)
+    after = (snapshot_df(out[0]), snapshot_df(out[1]))
+    for b, a in zip(before, after):
+        b, a = dict(b), dict(a)
+        b.pop('attrs', None), a.pop('attrs', None)
+        if repr(b) != repr(a):
+            raise HarnessError('used-before presentation changed the table')
+    PRESENTATION['warm_' + mode] += 1
+    return out[0], out[1]
+
+
 def exec_call(ssj, call, objs=None):
     if call.get('show_progress'):
         import contextlib
@@ -263,9 +369,7 @@ def _exec_call_backend(ssj, call, objs=None):
 def _exec_call(ssj, call, objs=None):
     if call.get('threshold_np') and 'threshold' in call:
         call = dict(call)
-        call.pop('threshold_np')
-        t = call['threshold']
-        call['threshold'] = np.int64(t) if isinstance(t, int) else np.float64(t)
+        call['threshold'] = np_number(call['threshold'], call.pop('threshold_np'))
     return _exec_call2(ssj, call, objs)
 
 
@@ -281,9 +385,19 @@ def _exec_call2(ssj, call, objs=None):
         sp = call.get(key or name)
         return builder(sp) if sp is not None else None
 
-    if api in JOINS:
+    mode = None
+    if 'ltable' not in objs and 'rtable' not in objs:
+        mode = _warm_mode(call)
+
+    def tables():
         L = get('ltable', make_table)
         R = get('rtable', make_table)
+        if mode:
+            L, R = _used_before(ssj, call, objs, L, R, mode)
+        return L, R
+
+    if api in JOINS:
+        L, R = tables()
         kw = join_kwargs(call)
         fn = getattr(ssj, api)
         if api == 'edit_distance_join':
@@ -304,8 +418,7 @@ def _exec_call2(ssj, call, objs=None):
             return flt
         if api == 'filter_pair':
             return flt.filter_pair(call['lstring'], call['rstring'])
-        L = get('ltable', make_table)
-        R = get('rtable', make_table)
+        L, R = tables()
         if api == 'filter_tables':
             kw = {}
             for k in ('l_out_attrs', 'r_out_attrs', 'l_out_prefix', 'r_out_prefix', 'n_jobs'):
@@ -324,8 +437,7 @@ def _exec_call2(ssj, call, objs=None):
                                   n_jobs=call.get('n_jobs', 1),
                                   show_progress=bool(call.get('show_progress', False)))
     if api == 'apply_matcher':
-        L = get('ltable', make_table)
-        R = get('rtable', make_table)
+        L, R = tables()
         C = get('candset', make_table)
         tok = get('tok', make_tokenizer)
         sf = objs.get('sim_function') or sim_function(call['sim'])
